@@ -2462,8 +2462,15 @@ impl Reference
 				let mut assignee_type = vt.clone().fully_dereferenced();
 				for _i in 0..self.address_depth
 				{
-					assignee_type = ValueType::Pointer {
-						deref_type: Box::new(assignee_type),
+					assignee_type = match assignee_type
+					{
+						ValueType::Slice { element_type } =>
+						{
+							ValueType::SlicePointer { element_type }
+						}
+						assignee_type => ValueType::Pointer {
+							deref_type: Box::new(assignee_type),
+						},
 					};
 				}
 				let declared_type = dt;
@@ -3039,12 +3046,16 @@ impl Reference
 					deref_type: Box::new(current_type),
 				};
 			}
-			else if current_type.is_slice_pointer()
+			else if let ValueType::SlicePointer { element_type } = &current_type
 			{
-				panic!(
-					"This currently has no solution because \
-					 fully_dereferenced makes no sense here."
-				);
+				// With an address marker this is the slice pointer itself,
+				// without one it is the array view that it points to.
+				take_address = false;
+				if self.address_depth == 0
+				{
+					let element_type = element_type.clone();
+					current_type = ValueType::Slice { element_type };
+				}
 			}
 			else
 			{
